@@ -190,8 +190,9 @@ def default_role_literals(tree):
                 continue
             t = node.test
             rets = [n for st in node.body for n in ast.walk(st) if isinstance(n, ast.Return)]
-            if isinstance(t.left, ast.Call) and isinstance(t.left.func, ast.Name) and t.left.func.id == "len" \
-                    and isinstance(t.ops[0], ast.Eq) and _const_int(t.comparators[0], "len(...) == k") == 1:
+            is_len = isinstance(t.left, ast.Call) and isinstance(t.left.func, ast.Name) and t.left.func.id == "len"
+            if (is_len or isinstance(t.left, ast.Name)) and isinstance(t.ops[0], ast.Eq) \
+                    and isinstance(t.comparators[0], ast.Constant) and t.comparators[0].value == 1:
                 if len(rets) != 1 or not isinstance(rets[0].value, ast.List):
                     raise TranslateError("%s: single-operand rule does not return a list literal" % fname)
                 elts = rets[0].value.elts
